@@ -166,6 +166,22 @@ Theorem vertex_to_face_pattern (F : list face) :
               let w := odiv O 1 (ofnat O 3) in [(iT, p, w); (iT, q, w); (iT, r, w)]) (indexed F).
 Proof. reflexivity. Qed.
 
+Theorem incidence_patterns :
+  (forall (w : list (T * T)) (E : list edge),
+     adjacency w E =
+     flat_map (fun t : Z * (edge * (T * T)) => let '(e, ((a, b), (v0, v1))) := t in [(a, b, v0); (b, a, v1)])
+              (indexed (combine E w))
+     /\ adj_vals_one O = (1, 1) /\ (forall d : T, adj_vals_length d = (d, d)) /\ (forall x : T, adj_vals_custom x = (x, x))) /\
+  (forall (oriented : bool) (E : list edge),
+     vertex_to_edge O oriented E =
+     flat_map (fun t : Z * edge => let '(e, (a, b)) := t in
+                 [(a, e, if oriented then - (1) else 1); (b, e, 1)]) (indexed E)) /\
+  (forall F : list face,
+     vertex_to_face O F =
+     flat_map (fun t : Z * face => let '(iT, (p, q, r)) := t in
+                 let w := odiv O 1 (ofnat O 3) in [(iT, p, w); (iT, q, w); (iT, r, w)]) (indexed F)).
+Proof. split; [exact adjacency_pattern | split; [exact vertex_to_edge_pattern | exact vertex_to_face_pattern]]. Qed.
+
 (* ------------------------------------------------------------------ tetrahedral dual Laplacian *)
 Theorem tl_gen_rowsum (nb : Z -> list Z) (nc : Z) : rs0 T O (tl_gen O nb nc).
 Proof.
